@@ -229,8 +229,6 @@ def run(rep, tier, seed, replay=None):
                 if not okv:
                     fd = [h2f(x) for x in rec.get("fd", ["fd", "0", "0", "0"])[1:4]]
                     key = None
-                    if e.negroot and any(x != x for x in real[:3]):
-                        key = "C06:nth-root-negative-base"
                     failed_cases.add(c["id"])
                     rep.violation("gradient differs from the analytic gradient at %s: real %s reference %s (central differences %s)"
                                   % (arg, real[:3], ref, fd),
@@ -325,11 +323,7 @@ def run(rep, tier, seed, replay=None):
                     if member(d, cons):
                         continue
                     hy = hyps.get((c["id"], q), set())
-                    if "sqrt-ov" in hy:
-                        key = "C06:feature-sqrt-stale-ov"
-                    elif "setCount" in hy:
-                        key = "C06:feature-binary-setCount"
-                    elif occ is not None and member(d, occ):
+                    if occ is not None and member(d, occ):
                         key = "C06:feature-binary-incompatible-merge"
                     else:
                         key = None
